@@ -16,8 +16,8 @@ import (
 // operations, so each check explores the part of the matrix that belongs to its statement.
 
 var (
-	pairConnA = []string{"sub:A:e1f1:L1lc:lc:d", "unsub:A:e1f1:L1lc:d", "bind:A:e1f1:L1lc:lc:d", "unbind:A:e1f1:L1lc:d", "write:A:e1f1:L1lc:limit:ack:2", "entrm:A:1"}
-	pairConnB = []string{"sub:B:e1f1:L1lc:lc:d", "unsub:B:e1f1:L1lc:d", "bind:B:e1f1:L1lc:lc:d", "unbind:B:e1f1:L2lc:d", "write:B:e1f1:L2lc:limit:ack:2", "entrm:B:1"}
+	pairConnA = []string{"sub:A:e1f1:L1lc:lc:d", "unsub:A:e1f1:L1lc:d", "bind:A:e1f1:L1lc:lc:d", "unbind:A:e1f1:L1lc:d", "write:A:e1f1:L1lc:limit:ack:2", "entrm:A:1", "entadd:A:1"}
+	pairConnB = []string{"sub:B:e1f1:L1lc:lc:d", "unsub:B:e1f1:L1lc:d", "bind:B:e1f1:L1lc:lc:d", "unbind:B:e1f1:L2lc:d", "write:B:e1f1:L2lc:limit:ack:2", "entrm:B:1", "entadd:B:1"}
 	pairLocal = []string{"set:L1lc:2", "lupd:L1lc:1:5:t", "disc:A", "disc:B"}
 
 	pairPreludes = map[string][]string{
@@ -88,7 +88,9 @@ func pairMatrix(owner string, thorough bool) []*engine.SScenario {
 			sc := linScenarioOpt(pairPreludes[pn], [][]string{{a}, {b}}, pairProbes, same)
 			sc.Name = "pair[" + pn + "] " + a + " || " + b
 			// teardowns are long operations: the quick tier explores these pairs up to one deviation
-			sc.Heavy = owner == "C10"
+			// (not the removals racing the reader of the same connection: those need two deviations — the message has
+			// to pass the entry of message handling before the removal starts, and the removal has to be interrupted)
+			sc.Heavy = owner == "C10" && !same
 			scs = append(scs, sc)
 		}
 	}
